@@ -809,6 +809,13 @@ def _clamp(func, args, kwargs):
     return Sym.make(apply1(g, P(a)), a.dtype)
 
 
+@handles("clamp_", "clip_", "clamp_min_", "clamp_max_")
+def _clamp_inplace(func, args, kwargs):
+    nm = func_name(func)[:-1]
+    res = _clamp(getattr(torch, nm), args, kwargs)
+    return write_into(args[0], res._p)
+
+
 @handles("relu")
 def _relu(func, args, kwargs):
     return Sym.make(apply1(lambda x: s_max2(toreal(x), rv(0)), P(args[0])), args[0].dtype)
